@@ -1,0 +1,6 @@
+//go:build !verif
+
+package inhibit
+
+// verifPoint is a verification hook (build tag verif); a no-op in normal builds.
+func verifPoint(string, ...any) {}
